@@ -31,28 +31,37 @@ let cut_eq t =
 
 let pair (k, v) = (cs_of_string k, cs_of_string v)
 
-(* "load;E:VAR=v;F:key=v;Q:key=v;A:how;X:ext;D:ext:key=v" -> (process environment, selection).
-   D: items (decoy siblings of the selected file) are dropped here on purpose: they are not the selected file. *)
+(* "load;E:VAR=v;F:key=v;Q:key=v;A:how;X:ext;C:key=v;D:ext:key=v;N:stem;P:where"
+   -> (process environment, file named by the option as (ext, content) if any, content of ./config.yaml if any).
+   Dropped here on purpose, because they must not matter: D: (decoy siblings of the selected file), N: (the base
+   name of the selected file) and P: (its directory and the spelling of its path). *)
 let parse_load toks =
-  let env = ref [] and file = ref [] and how = ref "" and ext = ref "" in
+  let env = ref [] and file = ref [] and cwdf = ref [] and how = ref "" and ext = ref "" in
   Stdlib.List.iter (fun t ->
       if Stdlib.String.length t > 2 && Stdlib.String.get t 1 = ':' then begin
         let body = Stdlib.String.sub t 2 (Stdlib.String.length t - 2) in
         match Stdlib.String.get t 0 with
         | 'E' -> env := cut_eq body :: !env
         | 'F' | 'Q' -> file := cut_eq body :: !file
+        | 'C' -> cwdf := cut_eq body :: !cwdf
         | 'A' -> if !how = "" then how := fst (cut_eq body)
         | 'X' -> if !ext = "" then ext := fst (cut_eq body)
         | _ -> ()
       end) toks;
   let ext = match !ext with "" -> "yaml" | "none" -> "" | e -> e in
-  let sel = if !file = [] then None
-    else Some ((!how = "cwd", cs_of_string ext), Stdlib.List.rev_map pair !file) in
-  (Stdlib.List.rev_map pair !env, sel)
+  let f = Stdlib.List.rev_map pair !file and c = Stdlib.List.rev_map pair !cwdf in
+  let c_opt = if c = [] then None else Some c in
+  let (opt, dflt) =
+    if f = [] then (None, c_opt)
+    else if !how = "cwd" then
+      (* the F: items are the content of ./config.<ext>: the default file only when ext = yaml *)
+      (None, if ext = "yaml" then Some f else c_opt)
+    else (Some (cs_of_string ext, f), c_opt) in
+  (Stdlib.List.rev_map pair !env, opt, dflt)
 
 let unsupported_selection = function
   | None -> false
-  | Some ((cwd, ext), f) -> Config.read_file cwd ext f = None
+  | Some (ext, _) -> not (Stdlib.List.mem ext Config.viper_exts)
 
 let verdict_text = function
   | Config.Accept -> "OK"
@@ -114,7 +123,7 @@ let model input =
        (match table_entry k with
         | Some ((_, _), d) -> k ^ "=" ^ string_of_cs d
         | None -> k ^ "=<absent>"))
-  | "load" :: toks -> let (env, sel) = parse_load toks in render_loaded (Config.load_sel_model tbl env sel)
+  | "load" :: toks -> let (env, opt, dflt) = parse_load toks in render_loaded (Config.load_files_model tbl env opt dflt)
   | "validate" :: toks ->
     let v = parse_validate toks in
     verdict_text (Config.db_validate (if v.nil then None else Some v.cfg) v.st)
@@ -127,12 +136,12 @@ let spec input obs =
   if Config.table_ok tbl <> true then "FAIL key-table-malformed (see the obligations over BHSGen.ConfigKeys)" else
   match split_on ';' input with
   | "load" :: toks ->
-    let (env, sel) = parse_load toks in
-    let file = match sel with Some (_, f) -> f | None -> [] in
+    let (env, sel, dflt) = parse_load toks in
+    let file = match sel, dflt with Some (_, f), _ -> f | None, Some f -> f | None, None -> [] in
     (* a selected file with an extension viper does not know: the property statement is silent; only the
        model comparison speaks (HEAD refuses it) *)
     if unsupported_selection sel then "OK" else
-    (match Config.load_sel_spec tbl env sel with
+    (match Config.load_files_spec tbl env sel dflt with
      | None -> if obs = "LOAD-ERROR" then "OK" else "FAIL ill-typed-value-accepted got " ^ obs
      | Some cfg ->
        if obs = "LOAD-ERROR" then "FAIL load-refused-valid-sources" else
